@@ -7,7 +7,6 @@ import (
 	"strings"
 
 	"github.com/AdguardTeam/AdGuardHome/internal/filtering"
-	"github.com/AdguardTeam/golibs/stringutil"
 )
 
 type criterionType int
@@ -79,11 +78,38 @@ func ctDomainOrClientCaseNonStrict(
 	host string,
 	ip string,
 ) (ok bool) {
-	return stringutil.ContainsFold(clientID, term) ||
-		stringutil.ContainsFold(host, term) ||
-		(asciiTerm != "" && stringutil.ContainsFold(host, asciiTerm)) ||
-		stringutil.ContainsFold(ip, term) ||
-		stringutil.ContainsFold(name, term)
+	return containsFold(clientID, term) ||
+		containsFold(host, term) ||
+		(asciiTerm != "" && containsFold(host, asciiTerm)) ||
+		containsFold(ip, term) ||
+		containsFold(name, term)
+}
+
+// containsFold reports whether s contains substr under Unicode case-folding,
+// comparing substr with every window of the same length that starts at a rune
+// of s.
+//
+// It replaces stringutil.ContainsFold, which only looks at positions whose
+// rune is the first rune of substr or that rune's next simple fold, and so
+// misses, for example, "Kitchen" in "My Kitchen" for the term "kitchen"
+// (the next fold of 'k' is the Kelvin sign, not 'K'; likewise 's').
+func containsFold(s, substr string) (ok bool) {
+	n := len(substr)
+	if n == 0 {
+		return true
+	}
+
+	for i := range s {
+		if len(s)-i < n {
+			return false
+		}
+
+		if strings.EqualFold(s[i:i+n], substr) {
+			return true
+		}
+	}
+
+	return false
 }
 
 // quickMatch quickly checks if the line matches the given search criterion.
